@@ -787,10 +787,31 @@ fn lv_stream(out: &mut Out, id: &mut u64, thorough: bool) {
                         hdrs.push(("sec-websocket-version", "13"));
                         hdrs.push(("sec-websocket-key", "dGhlIHNhbXBsZSBub25jZQ=="));
                     }
-                    let raw = build_request(req.method, &req.target, &hdrs, req.body);
+                    let mut raw = build_request(req.method, &req.target, &hdrs, req.body);
                     let mut obs = None;
+                    // the contract does not depend on the protocol version of the request: some
+                    // requests go over HTTP/2 (own connection), some with an HTTP/1.0 request line
+                    if req.scen != "ws" && i % 9 == 4 {
+                        if let Some(resp) = h2_roundtrip(addr, req.method, &req.target, &hdrs, req.body, true) {
+                            let o = lv_observe(&req, &sent_cid, &resp);
+                            if let Some(x) = o.xrids.last() {
+                                if earlier.len() < 64 {
+                                    earlier.push(x.clone());
+                                }
+                            }
+                            obs = Some(o);
+                        }
+                    }
+                    let http10 = req.scen != "ws" && i % 9 == 7;
+                    if http10 {
+                        raw = String::from_utf8_lossy(&raw).replacen(" HTTP/1.1\r\n", " HTTP/1.0\r\n", 1).into_bytes();
+                        rr = None; // its own connection (the server closes it after the response)
+                    }
                     // a keep-alive connection, re-opened if the server closed it
                     for _attempt in 0..3 {
+                        if obs.is_some() {
+                            break;
+                        }
                         if rr.is_none() {
                             match connect(addr) {
                                 Ok(s) => rr = Some(RespReader::new(s)),
@@ -826,7 +847,7 @@ fn lv_stream(out: &mut Out, id: &mut u64, thorough: bool) {
                                     }
                                 }
                                 obs = Some(o);
-                                if close {
+                                if close || http10 {
                                     rr = None;
                                 }
                                 break;
